@@ -6,6 +6,8 @@ def units(tier):
     from contracts import udf_fid as UF
     us = [Unit(F.MasteredUDF, {'script': s}) for s in sorted(F.UDF_SCRIPTS) + F.random_udf_names(tier)]
     us += [Unit(F.ReopenedUDF, {'script': s}) for s in sorted(F.UDF_SCRIPTS) + F.random_udf_names(tier)]
+    us += [Unit(F.MasteredUDF, {'script': s}) for s in F.random_udf_reopen_names(tier)]      # histories going on after write + open
+    us += [Unit(F.Mastered, {'script': s}) for s in F.random_bridge_names(tier)]      # all four namespaces at once
     for n in (0, 1, 5, 64, 254) if tier == 'quick' else range(0, 255):
         us.append(Unit(UF.FidPlacementStep, {'namelen': n}))
         us.append(Unit(UF.FIDLength, {'namelen': n}))
